@@ -6,11 +6,14 @@
   the pandas column model every `contains_op` depends only on the dtype and the *bag* of cells: it is
   invariant under row permutation, index relabelling, renaming (index and name are not read) and
   k-fold self-concatenation.  `C11_detect_pandas` lifts this to `detect_type` for every typeset.
-  Invariance of `infer_type` additionally needs bag-invariance of the 14 inference guards and
-  equivariance of their transformers (and the hypothesis H_dt_bag about `pd.to_datetime`); that part is
-  covered by the bag runner on the real code, not yet by a Lean theorem (C11_infer: partial).
+  `C11_infer_pandas`: the same for `infer_type` and the cast data — every one of the 14 relation tests of
+  the regenerated table accepts a column iff it accepts any column with the same bag (`guard_accBag`),
+  every transformer maps equal bags to equal bags (`xform_equiBag`); the only hypothesis is `DtBag`
+  (`pd.to_datetime` parses element by element), which the bag runner validates on real data.  Which
+  *exception* escapes from a guard that raises can depend on the row order; that is C09's subject.
 -/
 import VProofs.Obligations.PandasBag
+import VProofs.Obligations.PandasBagInfer
 import VProofs.Lemmas.PandasTS
 namespace V.C11
 open V
@@ -55,8 +58,8 @@ open V.Gen V.Pd
 
 /-- **membership is a property of the bag** (row order, index labels and name are irrelevant) -/
 theorem C11_membership_pandas (t : Ty) (c c' : Column) (hd : c.dtype = c'.dtype)
-    (hp : c.cells.Perm c'.cells) (w : ColWF c) : containsB t c = containsB t c' :=
-  containsB_bag t c c' ⟨hd, hp⟩ w
+    (hp : c.cells.Perm c'.cells) : containsB t c = containsB t c' :=
+  containsB_bag t c c' ⟨hd, hp⟩
 
 /-- **membership is unchanged by repeating the sequence** -/
 theorem C11_repeat_pandas (t : Ty) (c : Column) (k : Nat) (w : ColWF c) :
@@ -64,15 +67,15 @@ theorem C11_repeat_pandas (t : Ty) (c : Column) (k : Nat) (w : ColWF c) :
 
 /-- **detect_type is a property of the bag**, for every typeset and every supply order -/
 theorem C11_detect_pandas (o : ColOracle) (b : Built Ty) (f : Nat) (c c' : Column) (hd : c.dtype = c'.dtype)
-    (hp : c.cells.Perm c'.cells) (w : ColWF c) :
+    (hp : c.cells.Perm c'.cells) :
     (ptraverse (pandasTS o b).idSucc f b.root c).2 = (ptraverse (pandasTS o b).idSucc f b.root c').2 := by
   have l0 := pandasTS_L0 o b
-  refine (C11_sim (pandasTS o b).idSucc (fun x y => SameBag x y ∧ ColWF x) ?_ ?_ f b.root c c' ⟨⟨hd, hp⟩, w⟩).1
+  refine (C11_sim (pandasTS o b).idSucc (fun x y => SameBag x y) ?_ ?_ f b.root c c' ⟨hd, hp⟩).1
   · intro n r hr x y h
     have ⟨hm, hi⟩ := mem_idSucc.mp hr
     have ⟨hg, _⟩ := l0 n r hm hi
     rw [hg x, hg y]
-    exact containsB_bag r.dst x y h.1 h.2
+    exact containsB_bag r.dst x y h
   · intro n r hr x y h _
     have ⟨hm, hi⟩ := mem_idSucc.mp hr
     have ⟨_, hxf⟩ := l0 n r hm hi
@@ -91,6 +94,17 @@ theorem C11_detect_repeat_pandas (o : ColOracle) (b : Built Ty) (f : Nat) (c : C
     have ⟨hm, hi⟩ := mem_idSucc.mp hr
     have ⟨_, hxf⟩ := l0 n r hm hi
     rw [hxf x, hxf y]; exact h
+
+/-- **infer_type and the cast data are properties of the bag**: same inference path, cast columns with the same bag -/
+theorem C11_infer_pandas (o : ColOracle) (hdt : DtBag o) (b : Built Ty) (ft : FromTable b) (f : Nat)
+    (c c' : Column) (hd : c.dtype = c'.dtype) (hp : c.cells.Perm c'.cells) :
+    (ptraverse (pandasTS o b).succ f b.root c).2 = (ptraverse (pandasTS o b).succ f b.root c').2 ∧
+    SameBag (ptraverse (pandasTS o b).succ f b.root c).1 (ptraverse (pandasTS o b).succ f b.root c').1 :=
+  infer_bag o hdt b ft f b.root c c' ⟨hd, hp⟩
+
+/-- `DtBag` is satisfiable: an element-wise parser (here: the one that refuses everything) has it -/
+example : DtBag { toDatetime := fun _ => .raises "ValueError" } := by
+  intro l l' _ r tz h; cases h
 
 /-! non-vacuity: a mixed object column and its reversal -/
 example :
